@@ -129,7 +129,14 @@ std::string gen_string(Src& s, bool specials, bool allow_long) {
   }
   std::string o;
   // per-string "special density": most strings are plain, some are dense with specials
-  unsigned dens = specials ? (unsigned)s.weighted({5, 3, 2}) : 0;  // 0 plain, 1 sparse, 2 dense
+  unsigned dens = specials ? (unsigned)s.weighted({10, 6, 4, 1}) : 0;  // 0 plain, 1 sparse, 2 dense, 3 every byte needs a 6-byte escape
+  if (dens == 3) {
+    for (size_t i = 0; i < len; i++) {
+      static const char worst[] = {0x00, 0x01, 0x0b, 0x0e, 0x1f, 0x10, 0x7f};
+      o.push_back(worst[s.index(6)]);  // (0x7f excluded: index < 6) control bytes without a short escape -> \u00XX
+    }
+    return o;
+  }
   while (o.size() < len) {
     bool sp = dens == 2 ? s.coin(1, 2) : dens == 1 ? s.coin(1, 10) : false;
     if (!sp) {
